@@ -247,9 +247,9 @@ func (m *MethodMocker) ExportMethod(name string) UnExportedMocker {
 // mock 回调函数, 需要和 mock 模板函数的签名保持一致
 // 方法的参数签名写法比如: func(s *Struct, arg1, arg2 type), 其中第一个参数必须是接收体类型
 func (m *MethodMocker) Apply(callback interface{}) {
-	// Apply 会覆盖之前设定的 When 条件和 Return
-	m.when = nil
 	m.doApply(callback)
+	// Apply 会覆盖之前设定的 When 条件和 Return; 被拒绝(panic)的 Apply 不改变仍在生效的 mock
+	m.when = nil
 }
 
 func (m *MethodMocker) doApply(imp interface{}) {
@@ -391,10 +391,10 @@ func (m *UnexportedMethodMocker) Apply(callback interface{}) {
 		_, _ = unexports2.FindFuncByName(name)
 	}
 
-	// Apply 会覆盖之前设定的 When 条件和 Return
-	m.when = nil
 	callback, _ = interceptDebugInfo(callback, nil, m)
 	m.applyByName(name, callback)
+	// Apply 会覆盖之前设定的 When 条件和 Return; 被拒绝(panic)的 Apply 不改变仍在生效的 mock
+	m.when = nil
 	logger.Consolefc(logger.DebugLevel, "mocker [%s] apply.", logger.Caller(5), m.String())
 }
 
@@ -457,10 +457,10 @@ func (m *UnexportedFuncMocker) objName() string {
 // mock 回调函数, 需要和 mock 模板函数的签名保持一致
 // 方法的参数签名写法比如: func(s *Struct, arg1, arg2 type), 其中第一个参数必须是接收体类型
 func (m *UnexportedFuncMocker) Apply(callback interface{}) {
-	// Apply 会覆盖之前设定的 When 条件和 Return
-	m.when = nil
 	callback, _ = interceptDebugInfo(callback, nil, m)
 	m.applyByName(m.objName(), callback)
+	// Apply 会覆盖之前设定的 When 条件和 Return; 被拒绝(panic)的 Apply 不改变仍在生效的 mock
+	m.when = nil
 	logger.Consolefc(logger.DebugLevel, "mocker [%s] apply.", logger.Caller(5), m.String())
 }
 
@@ -507,9 +507,9 @@ func NewDefMocker(pkgName string, funcDef interface{}) *DefMocker {
 
 // Apply 代理方法实现
 func (m *DefMocker) Apply(callback interface{}) {
-	// Apply 会覆盖之前设定的 When 条件和 Return
-	m.when = nil
 	m.doApply(callback)
+	// Apply 会覆盖之前设定的 When 条件和 Return; 被拒绝(panic)的 Apply 不改变仍在生效的 mock
+	m.when = nil
 }
 
 func (m *DefMocker) doApply(imp interface{}) {
